@@ -215,7 +215,8 @@ class Run:
                 self.runaway = True
                 raise Runaway("objective evaluated %d times" % self.calls)
             return self.pure(pt)
-        self.problem = LoggedProblem.make(guarded, self.lower, self.upper, fail_at, exc)
+        self.problem = LoggedProblem.make(guarded, self.lower, self.upper, fail_at, exc,
+                                          fresh_holder=bool(case.get("fresh_holder")))
         self.solver = Solver(self.problem, SolverParameters(eps=case["eps"], r=case["r"], itersLimit=case["lim"],
                                                             evolventDensity=case["m"],
                                                             refineSolution=case.get("refine", False)))
